@@ -58,14 +58,22 @@ def g_score(draw):
                 tiny = max(m, 1.0) * 10.0 ** r.uniform(-322, -290)
                 x = ubm["means"][c] + scales * r.normal(0, 1, F)
                 s["n"][c], s["sum_px"][c], s["sum_pxx"][c] = tiny, tiny * x, tiny * x * x
-    off_kind = gen.choice(draw, ["none", "one", "stack", "one"])
+    same_as = list(range(T))
+    if T >= 2 and gen.choice(draw, [False, False, True]):
+        # the very same statistics object listed at two positions (a probe scored under two channel hypotheses,
+        # a cohort that repeats an item): every position is an item of its own
+        i = gen.integer(draw, 0, T - 2)
+        j = gen.integer(draw, i + 1, T - 1)
+        stats[j] = stats[i]
+        same_as[j] = i
+    off_kind = gen.choice(draw, ["none", "one", "stack", "one"] + (["stack", "stack"] if same_as != list(range(T)) else []))
     if off_kind == "none":
         offsets = None
     elif off_kind == "one":
         offsets = scales[None, :] * r.normal(0, 0.5, (C, F))
     else:
         offsets = scales[None, None, :] * r.normal(0, 0.5, (T, C, F))
-    return {"ubm": ubm, "models": models, "stats": stats, "offsets": offsets,
+    return {"ubm": ubm, "models": models, "stats": stats, "offsets": offsets, "same_as": same_as,
             "model_form": gen.choice(draw, ["machines", "stack", "list", "single2d"]),
             "stats_form": gen.choice(draw, ["list", "single"]),
             "normalise": gen.boolean(draw), "ubm_as_map": gen.choice(draw, [False, True, "ml_with_seed", False]),
@@ -108,6 +116,9 @@ def call(case, ubm_machine, models=None, stats=None, offsets="case", normalise=N
     lazy = case.get("lazy") or []
     if stats is case["stats"] or len(stats) == len(lazy):
         sobj = [_lazy(s) if (i < len(lazy) and lazy[i]) else s for i, s in enumerate(sobj)]
+    same_as = case.get("same_as")
+    if stats is case["stats"] and same_as and len(same_as) == len(sobj):
+        sobj = [sobj[same_as[i]] for i in range(len(sobj))]
     sarg = sobj[0] if (case["stats_form"] == "single" and len(sobj) == 1) else sobj
     off = case["offsets"] if isinstance(offsets, str) else offsets
     kw = {}
